@@ -6,7 +6,10 @@ import Model.Sync
 and `types.RetrieveWithHelpers` (chunks of 100 ids).
 
 Blobs are byte strings decoded with the wire model.  Real signature verification and public-key parsing are
-parameters (`Oracle`), supplied per blob by the harness, which runs the real crypto.
+parameters (`Oracle`), supplied per blob by the harness, which runs the real crypto.  The address of the carried
+key (`types.KeyAddress` = SHA-256 of `pubKey.Raw()`, /repo e753a34: the signer's address must be the address of
+the key it carries) is COMPUTED here for Ed25519 keys (`ed25519Raw`: the libp2p `crypto.pb.PublicKey` envelope
+decoded with the wire model) and taken from the oracle only for the other key types libp2p accepts.
 -/
 
 namespace Retrieve
@@ -17,7 +20,26 @@ structure Oracle where
   keyOk : Bool        -- libp2p accepts the public key carried by the blob
   hdrSigOk : Bool     -- the carried key verifies the signature over the header payload
   dataSigOk : Bool    -- the carried key verifies the signature over the data bytes
+  keyAddr : Bytes := []  -- `types.KeyAddress` of the carried key; consulted only when it is not an Ed25519 key
   deriving Repr, Inhabited
+
+/-- the raw key inside a marshalled libp2p Ed25519 public key: `crypto.pb.PublicKey` is proto2
+`{required KeyType Type = 1; required bytes Data = 2}`; protobuf-go keeps the last occurrence of each, stores
+the enum as the varint truncated to 32 bits (open enum), `Ed25519 = 1`, and `UnmarshalEd25519PublicKey` wants
+exactly 32 bytes; `Raw()` returns them. `none`: not an Ed25519 key (another type, or not a key at all). -/
+def ed25519Raw (pk : Bytes) : Option Bytes :=
+  match decFields pk with
+  | none => none
+  | some fs =>
+    match (fs.filterMap (pickVarint 1)).getLast?, (fs.filterMap (pickLen 2)).getLast? with
+    | some t, some d => if t % 4294967296 = 1 ∧ d.length = 32 then some d else none
+    | _, _ => none
+
+/-- `types.KeyAddress(pubKey)`: SHA-256 of the raw key -/
+def keyAddrOf (o : Oracle) (pk : Bytes) : Bytes :=
+  match ed25519Raw pk with
+  | some raw => sha256 raw
+  | none => o.keyAddr
 
 inductive BlobClass
   | empty                       -- nil or empty blob: ignored
@@ -48,11 +70,13 @@ def headerStage (o : Oracle) (bs : Bytes) : HdrStage :=
 /-- `SignedHeader.ValidateBasic` on a decoded header (signature check delegated to the oracle) -/
 def validateBasicWire (o : Oracle) (sh : SignedHeader) : Bool :=
   sh.header.proposerAddress ≠ [] && sh.signature ≠ [] &&
-  decide (sh.header.proposerAddress = sh.signer.address) && sh.signer.pubKey ≠ [] && o.hdrSigOk
+  decide (sh.header.proposerAddress = sh.signer.address) && sh.signer.pubKey ≠ [] &&
+  decide (sh.signer.address = keyAddrOf o sh.signer.pubKey) && o.hdrSigOk
 
 /-- `isValidSignedData` -/
 def validSignedData (o : Oracle) (proposer : Bytes) (sd : SignedData) : Bool :=
-  decide (sd.signer.address = proposer) && sd.signer.pubKey ≠ [] && o.dataSigOk
+  decide (sd.signer.address = proposer) && sd.signer.pubKey ≠ [] &&
+  decide (sd.signer.address = keyAddrOf o sd.signer.pubKey) && o.dataSigOk
 
 /-- the P2P header path (`HeaderStoreRetrieveLoop`): `isUsingExpectedSingleSequencer` on the stored header -/
 def p2pAdmit (o : Oracle) (proposer : Bytes) (sh : SignedHeader) : Bool :=
